@@ -86,7 +86,9 @@ const HANG_SECS: u64 = 40;
 
 fn main() {
     use std::io::{BufRead, Write};
-    std::panic::set_hook(Box::new(|_| {}));
+    if std::env::var_os("VERIF_PANIC_TRACE").is_none() {
+        std::panic::set_hook(Box::new(|_| {}));
+    }
     let stdin = std::io::stdin();
     for line in stdin.lock().lines() {
         let Ok(line) = line else { break };
